@@ -39,7 +39,7 @@ K2_KINDS = ("k1", "haibach", 22.0, "inf", "absent")
 SDS = (1.0, 100.0, 317.3)
 NDS = (1e4, 1e6, 2.5e6)
 TS_ = (1.0, 1.2, 4.0, 12.0)
-TARGETS = (1e-6, 0.1, 0.5, 0.9, 0.975)
+TARGETS = (1e-9, 1e-6, 0.1, 0.5, 0.9, 0.975, 1 - 1e-8)
 LOADF = (0.2, 0.5, 1 - 1e-12, 1.0, 1 + 1e-12, 2.0, 10.0)
 CYCF = (1e-3, 0.5, 1 - 1e-12, 1.0, 1 + 1e-12, 2.0, 1e3)
 RTOL = 1e-10
@@ -59,7 +59,7 @@ def _scatter_menu(tier):
 
 
 def _natives(tier):
-    return (None, 0.1, 0.025) if tier == "quick" else (None, 0.1, 0.5, 0.9, 0.025)
+    return (None, 0.1, 0.025, 1e-8) if tier == "quick" else (None, 0.1, 0.5, 0.9, 0.025, 1e-8)
 
 
 def _nds(tier):
